@@ -117,6 +117,11 @@ def run_select(ctx):
         ops.append((op, args))
         meta.append((halg, kalg, also, perm))
 
+    def near(h):
+        """names related to h as strings: prefixes, extensions, other case — a comparison that is not plain equality
+        (ordering, prefix match, case-insensitive match) shows on one of them"""
+        return [h[:-1], h[:len(h) // 2], h + "0", h + "-256", h + "+A128KW", h.lower(), h.upper() if h.upper() != h else h.swapcase(), " " + h, h + " "]
+
     # --- signing and verifying with an oct key that is long enough for every HS* ---
     key = pool["oct-64"]
     toks = {}
@@ -124,7 +129,7 @@ def run_select(ctx):
     for (o, a), r in zip(mk, ctx.real(mk)):
         toks[a["sig"]["protected"]["alg"]] = r["jws"]
     for h in ("HS256", "HS384", "HS512"):
-        for k in names["sign"] + extra:
+        for k in names["sign"] + extra + near(h):
             add("jws.sig", {"jws": {"payload": "cGF5"}, "sig": {"protected": {"alg": h}}, "jwk": dict(key, alg=k)}, h, k)
             add("jws.sig", {"jws": {"payload": "cGF5"}, "sig": {"header": {"alg": h}}, "jwk": dict(key, alg=k)}, h, k)
             add("jws.ver", {"jws": toks[h], "jwk": dict(key, alg=k)}, h, k)
@@ -136,21 +141,28 @@ def run_select(ctx):
     wt = {}
     for (o, a), r in zip(mk, ctx.real(mk)):
         wt[a["jwe"]["protected"]["alg"]] = (r["jwe"], a["jwe"]["protected"]["enc"], a["jwk"])
+    # asymmetric families whose names are prefixes of one another (RSA-OAEP / RSA-OAEP-256, ECDH-ES / ECDH-ES+A128KW)
+    mk = [("jwe.enc", {"jwe": {"protected": {"alg": w, "enc": "A128GCM"}}, "jwk": pool[kn], "pt": "00", "rand": "11" * 100})
+          for w, kn in (("RSA-OAEP", "RSA-2048"), ("RSA-OAEP-256", "RSA-2048"), ("ECDH-ES", "EC-P256"), ("ECDH-ES+A128KW", "EC-P256"), ("RSA1_5", "RSA-2048"))]
+    for (o, a), r in zip(mk, ctx.real(mk)):
+        if r.get("ok"):
+            wt[a["jwe"]["protected"]["alg"]] = (r["jwe"], "A128GCM", a["jwk"])
     for w, (tok, e, k0) in wt.items():
-        for k in names["wrap"] + names["encr"] + extra:
+        for k in names["wrap"] + names["encr"] + extra + near(w) + near(e):
             add("jwe.dec_jwk", {"jwe": tok, "jwk": dict(k0, alg=k), "rand": "00" * 64}, w, k, also=e)
+            add("jwe.dec", {"jwe": tok, "jwk": [dict(k0, alg=k)], "rand": "00" * 64}, w, k, also=e)
     # --- content encryption / decryption ---
     for e in names["encr"]:
         cek = {"kty": "oct", "k": b64u(rng.randbytes(E.CEKLEN[e]))}
         r = ctx.real([("jwe.enc_cek", {"jwe": {"protected": {"enc": e}}, "cek": cek, "pt": "00", "rand": "22" * 32})])[0]
-        for k in names["encr"] + extra:
+        for k in names["encr"] + extra + near(e):
             add("jwe.enc_cek", {"jwe": {"protected": {"enc": e}}, "cek": dict(cek, alg=k), "pt": "00", "rand": "22" * 32}, e, k)
             add("jwe.enc_cek", {"jwe": {"unprotected": {"enc": e}}, "cek": dict(cek, alg=k), "pt": "00", "rand": "22" * 32}, e, k)
             add("jwe.dec_cek", {"jwe": r["jwe"], "cek": dict(cek, alg=k)}, e, k)
     # --- key exchange ---
     a, b = pool["EC-P256"], K.public(pool["EC-P256-b"])
-    for x in names["exch"] + extra:
-        for y in names["exch"] + extra:
+    for x in names["exch"] + extra + near("ECDH"):
+        for y in names["exch"] + extra + near("ECMR"):
             add("jwk.exc", {"prv": dict(a, alg=x), "pub": dict(b, alg=y)}, x, y)
     # --- permissions at every entry point: the operation each one demands ---
     perm_cases = [("use", "sig"), ("use", "enc"), ("use", "other"), ("key_ops", []), ("key_ops", ["sign"]), ("key_ops", ["verify"]),
@@ -173,7 +185,7 @@ def run_select(ctx):
             add(op, build({m: v}), None, None, perm=(need, {m: v}))
 
     def ok_of(op, r):
-        if op in ("jws.sig", "jwe.enc_cek", "jwe.dec_cek", "jwe.enc_jwk"):
+        if op in ("jws.sig", "jwe.enc_cek", "jwe.dec_cek", "jwe.enc_jwk", "jwe.dec"):
             return bool(r.get("ok"))
         if op == "jws.ver":
             return bool(r.get("r"))
@@ -188,7 +200,8 @@ def run_select(ctx):
             same = (kalg == halg) or (also is not None and kalg == also)
             if ok and not same:
                 ctx.pfails.append(("select:%s:accepts-mismatch" % op, "%s succeeded although the key declares %r and the header names %r" % (op, kalg, halg), op, args, r))
-            if not ok and same and halg not in extra:
+            registered = halg in names["sign"] + names["wrap"] + names["encr"] + names["exch"]
+            if not ok and same and registered and not (op == "jwe.dec" and kalg == "dir"):
                 ctx.pfails.append(("select:%s:refuses-match" % op, "%s refused although key alg = header alg = %r" % (op, halg), op, args, r))
         else:
             need, md = perm
